@@ -55,12 +55,23 @@ def make_plan(seed: int, tier: str, index: int) -> dict[str, Any]:
     g = rng.stream(seed, "gen")
     doc = gen.gen_doc(g, max_tracks=2, small=g.random() < 0.5)
     doc["unknown"] = []
+    if index % 25 == 7:
+        # a long tempo map (thresholds that small maps never reach); corruptions are sampled
+        while len(doc["tempos"]) < 18 + (index % 23):
+            last_t = doc["tempos"][-1][0]
+            doc["tempos"].append([last_t + g.choice([1, 2, doc["resolution"], 3 * doc["resolution"] + 1]),
+                                  g.choice(gen.BPM_POOL)])
     if g.random() < 0.35:
         # a trailing tempo event that governs nothing (so that "zero tempo, unused" occurs)
         far = max_tick(doc) + g.choice([1, 10, doc["resolution"], 5000])
         doc["tempos"].append([far, g.choice(gen.BPM_POOL)])
     singles = enumerate_corruptions(doc)
     f = rng.stream(seed, "fault")
+    if len(singles) > 120:
+        # long tempo map: keep every kind, sample the positions
+        head = [c for c in singles if c["kind"] not in ("swap_tempo", "dup_tempo_tick", "zero_tempo")]
+        rest = [c for c in singles if c["kind"] in ("swap_tempo", "dup_tempo_tick", "zero_tempo")]
+        singles = head + [rest[i] for i in sorted(f.sample(range(len(rest)), 100))]
     real = [c for c in singles if c["kind"] != "none"]
     pairs = [{"kind": "pair", "steps": [a, b]} for a, b in itertools.permutations(real, 2)]
     cap = PAIRS_PER_CHART[tier]
@@ -256,9 +267,11 @@ def execute(plan: dict[str, Any]) -> dict[str, Any]:
     fired: dict[str, int] = {}
     counters = {"must_raise": 0, "may_parse": 0, "base": 0, "unspecified": 0, "queries": 0,
                 "may_parse_parsed": 0, "ok": 0, "n_a": 0, "pairs": 0, "pairs_must_raise": 0, "retries": 0,
+                "healthy_then_dropped_histories": 0,
                 "short_reading_reader": 1 if plan.get("reader_chunk") else 0}
     nontrivial = []
     base_chart = None
+    base_text = None
     tempo_ticks = [t for t, _ in doc["tempos"]]
     probe_ticks = sorted(set(tempo_ticks + [t + 1 for t in tempo_ticks] + governed_ticks(doc)
                              + [0, max_tick(doc) + 7]))
@@ -278,7 +291,51 @@ def execute(plan: dict[str, Any]) -> dict[str, Any]:
         if kind != "none":
             nontrivial.append(rng.digest([text]))
         chart = None
+        be = None
         err: BaseException | None = None
+        if label == "may-parse" and "zero_from" in info and base_text is not None:
+            # history: the healthy chart is loaded, asked for the very ticks that the zero tempo
+            # will govern, and dropped - then the edited file is loaded and asked again (whatever
+            # the first object's answers left behind in the process must not answer for the
+            # second).  Repeated under several allocator shifts, so that whether the second tempo
+            # map receives the first one's address does not hinge on the inherited heap state.
+            zf0 = info["zero_from"]
+            qticks = [zf0, zf0 + 1, zf0 + 100000] + [t for t in probe_ticks if t >= zf0]
+            for j in (0, 1, 2, 3, 4, 5, 6, 8, 11, 16):
+                try:
+                    tmp = _parse(base_text, None)
+                    tbe = tmp.sync_track.bpm_events
+                    for t in qticks:
+                        tbe.timestamp_at_tick_no_optimize_return(t)
+                        tbe.timestamp_at_tick(t)
+                    del tbe, tmp
+                    shift = world.heap_shift(j)
+                    z = _parse(text, None)
+                    zbe = z.sync_track.bpm_events
+                except BaseException:  # noqa: BLE001
+                    break
+                counters["healthy_then_dropped_histories"] += 1
+                bad_q = None
+                for t in qticks:
+                    for fn_name in ("timestamp_at_tick_no_optimize_return", "timestamp_at_tick"):
+                        try:
+                            bad_q = (fn_name, t, getattr(zbe, fn_name)(t))
+                        except ValueError:
+                            continue
+                        except BaseException as e:  # noqa: BLE001
+                            bad_q = (fn_name, t, "raised " + type(e).__name__)
+                        break
+                    if bad_q:
+                        break
+                del shift, zbe, z
+                if bad_q:
+                    violations.append({
+                        "sig": "C15/zero_tempo/query-must-raise/returned-after-healthy-chart-dropped",
+                        "detail": f"a healthy chart was loaded, queried and dropped; then the file with "
+                                  f"tempo {info['zero_k']} (tick {zf0}) set to zero was loaded: "
+                                  f"{bad_q[0]}({bad_q[1]}) gave {bad_q[2]!r} instead of ValueError "
+                                  f"(allocator shift {j})"})
+                    break
         try:
             chart = _parse(text, plan.get("reader_chunk"))
         except BaseException as e:  # noqa: BLE001
@@ -321,6 +378,7 @@ def execute(plan: dict[str, Any]) -> dict[str, Any]:
             continue
         if kind == "none":
             base_chart = chart
+            base_text = text
         be = chart.sync_track.bpm_events
         # negative ticks never get a time
         for fn_name in ("timestamp_at_tick", "timestamp_at_tick_no_optimize_return"):
@@ -334,6 +392,21 @@ def execute(plan: dict[str, Any]) -> dict[str, Any]:
             except BaseException as e:  # noqa: BLE001
                 violations.append({"sig": f"C15/{kind}/query-must-raise/{type(e).__name__}",
                                    "detail": f"{fn_name}(-1) raised {exc_token(e)} after corruption {c}"})
+        if not (label == "may-parse" and "zero_from" in info):
+            # every parsed chart answers a few ordinary queries before it is dropped (whatever a
+            # query leaves behind in the process must not answer for the next chart); a chart
+            # whose map is trustworthy and unchanged answers like the base chart
+            for t in probe_ticks[:6] + probe_ticks[-2:]:
+                counters["queries"] += 1
+                try:
+                    got_q: Any = us(be.timestamp_at_tick_no_optimize_return(t))
+                except ValueError:
+                    got_q = "ValueError"
+                except BaseException as e:  # noqa: BLE001
+                    got_q = "other:" + type(e).__name__
+                    violations.append({"sig": f"C15/{kind}/query/{type(e).__name__}",
+                                       "detail": f"query for tick {t} raised {exc_token(e)} after corruption {c}"})
+                    break
         if label == "may-parse" and "zero_from" in info and base_chart is not None:
             zf = info["zero_from"]
             bbe = base_chart.sync_track.bpm_events
